@@ -59,6 +59,7 @@ func jsonMain(e *Env, id string) (*res.Result, error) {
 	specs := collect(e, "JSON"+id, n, func(t *rapid.T) PkgSpec {
 		c := specgen.NewCtx(t, disabled)
 		c.NeedClient = id == "C07"
+		c.JSONTimeLayouts = id == "C06"
 		d := c.JSONDoc()
 		return PkgSpec{Doc: d, Cfg: inproc.Config{DoNotEdit: true, Client: id == "C07"}, Meta: map[string]any{"tags": tagList(c.Tags), "excluded": c.Excluded}}
 	})
@@ -85,7 +86,7 @@ func c09Main(e *Env) (*res.Result, error) {
 			// the query has none, so the client cannot authenticate such an operation at all)
 			var names []string
 			for _, k := range [][]string{{"bearer"}, {"apikey-header"}, {"bearer", "apikey-header"}, {"apikey-header", "apikey-header"}}[rapid.IntRange(0, 3).Draw(t, "scheme_set")] {
-				n := c.PlainName("sec", "scheme")
+				n := c.SchemeName("sec", "scheme")
 				c.Comps().SecuritySchemes = mapSet(c.Comps().SecuritySchemes, n, c.SchemeOf(k, n))
 				names = append(names, n)
 			}
